@@ -199,6 +199,9 @@ fn main() {
     cov.insert("rule".into(), json!(format!(
         "struct: {} single SCT entries and {} lists of 0..3 SCTs (plus lists of 255 / 256 / 257 / 1000 / 1285 entries) x every combination of <= {} deviations (3 nested length prefixes each in {{0,1,true-1,true+1,max}}, every cut, 7 suffixes incl. one and two valid SCT entries); every signature / extension size 0..65000 with consistent enclosing lengths (quick tier: the size set of sweep::sizes); all 256 versions, all 65536 algorithm pairs, timestamps over all single/double-bit patterns and every byte x all values; every string of bounded length over positional alphabets; well-formed 45-byte SCT prefix followed by every tail of length <= {}. Oracle: strict RFC 6962 walker + 'a malformed list yields at most the entries before the first bad one, all inside the declared list'. Non-trivial: every case",
         ns, nl, d, tn)));
+    // the same check against the crate built with all cargo features (std, serialize, unstable)
+    let mut sink = sink;
+    run.all_features_variant(&mut sink);
     let code = run.finish(&sink, cov, vec!["strict walker per DESIGN appendix D; trailing bytes inside an entry are Unspecified".into()]);
     std::process::exit(code);
 }
